@@ -43,12 +43,26 @@ func gen(r *vh.Rand) string {
 		switch r.Intn(24) {
 		case 0:
 			return 0
-		case 1:
+		case 1, 2, 3:
 			return self
-		case 2:
+		case 4:
 			return next + 2*r.Intn(3) // idle stream
-		case 3:
+		case 5:
 			return 2 * r.Range(1, 6) // even id, never a stream
+		case 6, 7:
+			if len(ids) > 0 {
+				return ids[len(ids)-1] // the stream opened last
+			}
+		case 8, 9:
+			var closed []int
+			for _, id := range ids {
+				if !open[id] {
+					closed = append(closed, id)
+				}
+			}
+			if len(closed) > 0 {
+				return closed[r.Intn(len(closed))]
+			}
 		}
 		if len(ids) == 0 {
 			return 0
@@ -58,9 +72,16 @@ func gen(r *vh.Rand) string {
 	for len(ops) < nsteps {
 		k := r.Intn(10)
 		switch {
+		case len(ids) >= 2 && k < 3 && r.Chance(1, 8):
+			// HEADERS that must not create a stream: even id, id below maxStreamID, open stream (trailers), 0
+			bad := []int{2 * r.Range(1, 12), ids[r.Intn(len(ids))], 0, next - 2}[r.Intn(4)]
+			ops = append(ops, fmt.Sprintf("n%d:%s", bad, prioStr(pickDep(bad), r.Chance(2, 5), pickW())))
 		case len(ids) < 2 || (k < 3 && len(ids) < maxStreams):
 			id := next
 			next += 2
+			if r.Chance(1, 10) {
+				next += 2 * r.Intn(3) // leave idle ids behind
+			}
 			if r.Chance(1, 2) {
 				ops = append(ops, fmt.Sprintf("n%d:%s", id, prioStr(pickDep(id), r.Chance(2, 5), pickW())))
 			} else {
@@ -104,7 +125,8 @@ func parsePrio(s string) (p bfe_http2.PriorityParam, ok bool) {
 }
 
 func execSeq(op string) string {
-	t := bfe_http2.NewVerifPrioTree()
+	t := bfe_http2.NewVerifPrioTree() // created on this goroutine: it is the connection's serve goroutine
+	defer t.Done()
 	var out []string
 	for _, s := range strings.Split(op, ";") {
 		if len(s) < 2 {
@@ -135,9 +157,7 @@ func execSeq(op string) string {
 				return "bad-op"
 			}
 			if s[0] == 'n' {
-				if id != 0 {
-					t.Open(uint32(id), has, p)
-				}
+				t.Open(uint32(id), has, p) // the REAL serverConn.processHeaders
 			} else {
 				if !has {
 					return "bad-op"
@@ -162,6 +182,15 @@ func exec(op string) string {
 
 func main() {
 	vh.Pre = func(emit func(string), thorough bool) {
+		for _, sh := range []string{"n1;n3;n5", "n1;n3:1s1;n5:3s1", "n1;n3:1s1;n5:1s1;c1", "n1;n3:1s1;n5:3s1;c3"} {
+			for _, dep := range []int{0, 1, 3, 5, 7, 9} {
+				for _, e := range []bool{false, true} {
+					for _, follow := range []string{"", ";p1:7s2", ";p7:7e3", ";p5:7e4;p7:5s1", ";n9:7s1;p7:9e1"} {
+						emit(sh + fmt.Sprintf(";n7:%s", prioStr(dep, e, 9)) + follow)
+					}
+				}
+			}
+		}
 		// exhaustive: 3 open streams 1,3,5 in a chain / star / flat, then every single PRIORITY
 		shapes := []string{"n1;n3;n5", "n1;n3:1s1;n5:3s1", "n1;n3:1s1;n5:1s1", "n1;n3:1s1;n5:1s1;c1", "n1;n3:1s1;n5:3s1;c3", "n1;n3:1s1;n5:3s1;c1;c3"}
 		for _, sh := range shapes {
